@@ -1,0 +1,31 @@
+//go:build verif
+
+// Contracts for the govc verifier (/verif). Comment-only: this file contains no code.
+package tcp
+
+//@ spec fun be16(b []byte, o int) int = int(b[o])*256 + int(b[o+1])
+//@ spec fun be24(b []byte, o int) int = int(b[o])*65536 + int(b[o+1])*256 + int(b[o+2])
+//@
+//@ func clientHelloBufferSize
+//@   props C10
+//@   ensures nopanic
+//@   ensures result1 == nil ==> len(data) >= 9 && data[0] == 0x16 && data[5] == 0x01
+//@   ensures result1 == nil ==> 0 < be16(data,3) && be16(data,3) <= 16384
+//@   ensures result1 == nil ==> result0 == 9 + be24(data,6) && result0 <= 5 + be16(data,3)
+//@   ensures result1 == nil ==> 0 < be24(data,6)
+//@   ensures len(data) >= 9 && data[0] == 0x16 && data[5] == 0x01 && 0 < be16(data,3) && be16(data,3) <= 16384
+//@           && 0 < be24(data,6) && be24(data,6) <= be16(data,3)-4 ==> result1 == nil
+//@   ensures result1 != nil ==> result0 == 0
+//@
+//@ func (*clientHelloMsg).unmarshal
+//@   props C10
+//@   requires m != nil
+//@   assigns m.*
+//@   ensures nopanic
+//@   loop 1 decreases len(data)
+//@   loop 2 decreases len(d)
+//@
+//@ func readServerName
+//@   props C10
+//@   ensures nopanic
+//@   ensures !ok ==> serverName == ""
